@@ -242,8 +242,19 @@ func VerifC18_KillAndWrapper() {
 	how := zzverif.Len("exit", 0, 1, 2)
 	finished := false
 	boom := errors.New("boom")
+	// the node's context may have been cancelled while it waited out its back-off (its parent or a group member died
+	// meanwhile): the schedule request must still lead to an end state the restart scan can work with - a node left in
+	// state NEW with nothing running would block the restart of its parent forever
+	lateCancel := zzverif.Len("cancelledDuringBackoff", 0, 1) == 1
+	if lateCancel {
+		a.ctxC()
+	}
 	a.runnable = func(ctx context.Context) error {
 		defer func() { finished = true }()
+		if lateCancel {
+			<-ctx.Done()
+			return ctx.Err()
+		}
 		switch how {
 		case 1:
 			return boom
@@ -254,6 +265,17 @@ func VerifC18_KillAndWrapper() {
 	}
 	s2.processSchedule(&processorRequestSchedule{dn: a.dn()})
 	zzverif.Settle()
+	if lateCancel {
+		for len(s2.pReq) > 0 {
+			if r := <-s2.pReq; r.died != nil {
+				s2.processDied(r.died)
+			}
+		}
+		zzverif.Reach("scheduled-after-cancellation")
+		zzverif.Assert(a.state == nodeStateCanceled || a.state == nodeStateDead || a.state == nodeStateDone, "node-cancelled-during-back-off-still-reaches-an-end-state")
+		zzverif.Reach("end")
+		return
+	}
 	zzverif.Assert(finished, "service-function-ran")
 	zzverif.Assert(len(s2.pReq) == 1, "exactly-one-death-report-per-instance")
 	if len(s2.pReq) == 1 {
